@@ -980,7 +980,9 @@ func (ex BatchExec) Then(f func(client *Client) PayloadBuilder) BatchExec {
 		ex.err = err
 		return ex
 	}
-	ex.batch = append(ex.batch, req)
+	// BatchExec is a value: never write into a backing array shared with the chain this one was derived from
+	// (two chains extending the same prefix would overwrite each other's last operation).
+	ex.batch = append(slices.Clip(ex.batch), req)
 	return ex
 }
 
